@@ -201,7 +201,7 @@ def seconds(t):
 def run(ctx):
     F = core.import_flowcal()
     path = os.path.join(ctx.tmpdir, 'c17.fcs')
-    n = 1200 if ctx.tier == 'quick' else 30000
+    n = 1200 if ctx.tier == 'quick' else 200000
     for cid, rng in ctx.cases([('k', i) for i in range(n)]):
         spec, exp, cls = make_case(rng)
         raw, lay = fcsgen.build(spec)
